@@ -34,6 +34,7 @@ package mangos
 //@   own_primitive
 //@   fresh_only
 //@   ensures result != nil && len(result.Body) == 0 && len(result.Header) == 0 && cap(result.Body) >= sz
+//@   ensures arrof(result.Header) != arrof(result.Body) && fresh_arr(result.Header) && fresh_arr(result.Body)
 //@
 //@ func newMsg
 //@   own_primitive
@@ -49,3 +50,10 @@ package mangos
 //@
 //@ func (*Message).Dup
 //@   own_primitive
+//@
+//@ interface ProtocolPipe.RecvMsg
+//@   ensures result != nil ==> arrof(result.Header) != arrof(result.Body)
+//@
+//@ interface TranPipe.Recv
+//@   ensures isnil(result1) ==> result0 != nil && arrof(result0.Header) != arrof(result0.Body)
+//@   ensures !isnil(result1) ==> result0 == nil
